@@ -138,7 +138,7 @@ def run_shards(check_name, specs, workers, timeout_s):
                     json.dump(spec, f)
                 log = open(os.path.join(tmp, f"l{i}.txt"), "wb")
                 p = subprocess.Popen(
-                    [PY, "-B", "-X", "faulthandler", "-m", "rvmon.worker", check_name, sp, op],
+                    [PY, "-B", "-X", "faulthandler"] + list(spec.get("python_flags", [])) + ["-m", "rvmon.worker", check_name, sp, op],
                     cwd=env.VERIF, env=envv, stdout=log, stderr=subprocess.STDOUT)
                 running.append((i, p, op, log, time.time()))
             still = []
@@ -202,8 +202,14 @@ def main_check(check_name, tier, replay=None):
     if getattr(mod, "VERBOSE_LOGGING_SHARDS", True) and specs:
         k = 3 if tier == "quick" else 6
         step = max(1, len(specs) // k)
-        for sp in [dict(s) for s in specs[::step][:k]]:
+        base = list(specs)
+        for sp in [dict(s) for s in base[::step][:k]]:
             sp["rv_loglevel"] = "DEBUG"
+            specs.append(sp)
+        # ... and a few with the interpreter's optimisation flag (-O: assert statements are not executed) and with warnings
+        # turned into errors (-W error::Warning for the library's own warning classes is what strict test suites use)
+        for j, sp in enumerate([dict(s) for s in base[1::step][:max(2, k // 2)]] or [dict(base[0])]):
+            sp["python_flags"] = ["-O"] if j % 2 == 0 else ["-W", "error"]
             specs.append(sp)
     workers = min(len(specs), getattr(mod, "WORKERS", {}).get(tier, 4 if tier == "quick" else 16))
     timeout_s = getattr(mod, "WATCHDOG", {}).get(tier, 600 if tier == "quick" else 3600)
